@@ -57,7 +57,15 @@ Proof. intros ->. apply orb_true_r. Qed.
 (* elements of an array document against the variant set built from a tuple and an element type *)
 Lemma tuple_array_elem_t t es x : mem x t = true -> mem x (SOneOf (tuple_array_set t es) false) = true.
 Proof.
-  intro H. eapply mem_oneof_intro; [|exact H]. apply tuple_array_set_In. left. reflexivity.
+  intro H. destruct t as [| | | | | |vs o|];
+    try (apply mem_split in H; destruct H as [H|[-> H]];
+         [eapply mem_oneof_intro; [|exact H]; apply tuple_array_set_In; left; reflexivity
+         |eapply mem_oneof_intro with (v := SNull); [|reflexivity]; apply tuple_array_set_In; right; right;
+          split; [apply orb_intro_r; exact H|reflexivity]]).
+  apply mem_oneof_elim in H. destruct H as [[v [Hin Hv]]|[-> Ho]].
+  - eapply mem_oneof_intro; [|exact Hv]. apply tuple_array_set_In. left. exact Hin.
+  - eapply mem_oneof_intro with (v := SNull); [|reflexivity]. apply tuple_array_set_In. right. right.
+    split; [apply orb_intro_r; exact Ho|reflexivity].
 Qed.
 
 Lemma tuple_array_elem_e t es e x : In e es -> mem x e = true ->
